@@ -8,6 +8,11 @@ CHECKS = {
   technique="explicit-state BFS to fixpoint over the real AVL tree (+ live iterators) vs. sorted-set reference model; successors by replay on fresh instances",
   text="Every Insert/Delete/Iterator/IteratorFrom/Next transition from every reachable (tree shape, balance factors, iterator node) state over key universe {0..K-1} (quick K=7 with one live iterator and K=5 with two; thorough K=10/one and K=7/two) is executed on the real code and compared with a sorted-set model (return values, membership, lower bound, full iteration from every bound, live-iterator continuation, AVL invariants, parent links, clone independence, safe-iterator snapshots). The state space over a fixed universe is finite and is closed (BFS fixpoint), so 'all finite histories' over that universe are covered, not a depth bound.",
   note="Trusted: the sorted-set model in cmd/c19, the canonical state key (tree incl. balance/parent/deleted flags + iterator node path/value; read through an overlay-added read-only accessor file), keys behave uniformly (only compared). Not covered: universes larger than K, more than two simultaneously live iterators, reuse of an iterator after it reported the end."),
+ "C17": dict(
+  engine="schedmc", category="model_checking", design_ref="DESIGN.md §3 C17",
+  technique="stateless preemption-bounded DFS over a controlled thread pool (overlay replacement of the threadpool dependency) running the real estimators; separate -race build of the same exploration with an invisible baton and explicit real-pool happens-before edges; real-pool conformance run",
+  text="Every scheduling choice of a controlled thread pool that mirrors the real pool's transition rules (worker receive, AddJob incl. inline-on-full-buffer, Wait check/select/block incl. nested pick-up of foreign jobs, Done) is enumerated by depth-first search up to a preemption bound (quick 2, nested bodies at T=3: 1; thorough 3/2) for 30 estimator bodies (scalar closed-form estimators with and without weights, wrappers, numeric, ScalarIid/ScalarId, vector normal, scalar and vector mixture EM, vector and matrix HMM Baum-Welch, logistic regression) x pool sizes 2..3 (thorough 4) x buffer sizes {1,100} x data sizes below/equal/above the pool size. Every execution runs the real code to completion and must equal the sequential (pool size 1) result up to 1e-9 relative, with no deadlock, lost, pending or doubly-run job. The same exploration runs in a -race build in which baton hand-offs are hidden from the detector and only the real pool's edges are annotated, so each enumerated job->thread assignment is judged for data races independent of timing. A conformance run on the real pool (-race) checks results against sequential and that every job->thread assignment the real pool produces on probe job structures is among those the model enumerates exhaustively (real within model).",
+  note="Trusted: the controlled pool's fidelity to threadpool.go of the pinned version (argued in the overlay file header and bound by the probe conformance run), Go's race detector (may miss, does not invent), scheduling only at pool operations (sufficient under race freedom, which the race pass checks). Not covered: schedules beyond the preemption bound, pool sizes > 4, the real pool's window between wg.Done and recording a job error."),
 }
 NA = {i: "check not built yet in this round (planned: see DESIGN.md §3 %s); no claim is made" % i for i in ALL}
 m = {
@@ -22,6 +27,7 @@ m = {
  },
  "engines": [
   {"name": "vf", "path": "mc/vf", "serves_properties": sorted(CHECKS), "kind_free_text": "supervisor: sharded worker subprocesses, violation grouping by structural key, known-findings matching, replay artefacts, evidence writer, hang watchdog"},
+  {"name": "schedmc", "path": "mc/cmd/c17 + mc/overlay/_threadpool", "serves_properties": ["C17"], "kind_free_text": "controlled scheduler (coroutine thread pool replacing the dependency via go build -overlay) + stateless deviation-bounded DFS + race-detector pass + real-pool conformance"},
   {"name": "histmc", "path": "mc/cmd/c19", "serves_properties": ["C19"], "kind_free_text": "explicit-state BFS over real objects with replay-built successors and canonical state hashing"},
  ],
  "checks": [],
